@@ -10,9 +10,39 @@ ASSUMPTIONS = ['index dumps complete at the quiescence points forced by hook H3 
                'offload_buffer/fsyncdata are no-ops of the storage model (filters and durability only): any change of an answer after them is a divergence']
 
 
+def gen_offload_script(rng):
+    """Many closed blobs with one or two keys each under small filter groups (3, 4), bloom filters on, and
+    offload_buffer(needed, level) between the closes: group filters lose their buffers, later merges into them fail, and
+    the answers for the keys of the OLDER blobs of a group must stay what they were."""
+    from .gen_storage import bloom_cfg_hex, bloom_bits
+    K = rng.choice([4, 8])
+    L = ['cfg K=%d dup=1 group=%d bloom=%s init=%s runtime=%s bloombits=%d' % (K, rng.choice([3, 3, 4, 2]), bloom_cfg_hex(), rng.choice(['eager', 'lazy']), rng.choice(['mt', 'ct']), bloom_bits()), 'open']
+    keys = []
+    seed = 0
+    def queries():
+        for k in keys:
+            L.append('R %s' % k)
+            L.append('C %s' % k)
+    for b in range(rng.randrange(5, 10)):
+        for _ in range(rng.choice([1, 1, 2])):
+            seed += 1
+            k = (seed * 7 + 1).to_bytes(K, 'big').hex()
+            keys.append(k)
+            L.append('W %s %d - 5 %d' % (k, rng.choice([5, 7]), seed))
+        L.append('close_active')
+        if rng.random() < 0.5:
+            L.append('offload %d %d' % (rng.choice([1, 1000000, 18446744073709551615]), rng.choice([0, 1, 1, 2, 100])))
+        queries()
+    if rng.random() < 0.4:
+        L += ['close', 'open']
+        queries()
+    L.append('close')
+    return '\n'.join(L) + '\n'
+
+
 def gen(tier, rng):
     n = 220 if tier == 'quick' else 5000
-    out = []
+    out = [('offload%05d' % i, gen_offload_script(rng)) for i in range(n // 8)]
     for i in range(n):
         # small filter groups and 3-5 keys spread over the key space: closing blobs merges ranges that grow on both sides
         g = Gen(rng, queries=('R', 'C', 'RD', 'RW'), maint=0.45, restart=0.05, bg=0.03, deletes=0.15,
